@@ -191,6 +191,9 @@ func equals(t types.Type, x, y value) bool {
 
 // load returns the value of type T in *addr.
 func load(T types.Type, addr *value) value {
+	if _, ok := (*addr).(bigval); ok {
+		return *addr // a big.Int is one immutable model value, whatever its struct layout
+	}
 	switch T := T.Underlying().(type) {
 	case *types.Struct:
 		v := (*addr).(structure)
@@ -213,6 +216,10 @@ func load(T types.Type, addr *value) value {
 
 // store stores value v of type T into *addr.
 func store(T types.Type, addr *value, v value) {
+	if _, ok := v.(bigval); ok {
+		*addr = v
+		return
+	}
 	switch T := T.Underlying().(type) {
 	case *types.Struct:
 		lhs := (*addr).(structure)
